@@ -56,7 +56,7 @@ class State:
         attrs.update(unknown_ctor_attrs(r, 'decoder.fast_pgn_metadata.__init__', set(attrs) | {'bytes_stored'}, 'record'))
         self.rec = Obj(rcls, attrs)
         self.key = stream_key(self.pgn, self.src, self.dest)
-        self.data = SymMap('data', [[self.key, GV.make([(self.absent.t, ABSENT), (z3.Not(self.absent.t), self.rec)])]])
+        self.data = SymMap('data', [[self.key, GV.make([(self.absent.t, ABSENT), (z3.Not(self.absent.t), self.rec)])]], open_world=True)
         dattrs = {'data': self.data}
         dattrs.update(unknown_ctor_attrs(r, 'decoder.NMEA2000Decoder.__init__', dattrs, 'NMEA2000Decoder'))
         self.decoder = Obj(r.cls('decoder', 'NMEA2000Decoder'), dattrs)
@@ -174,6 +174,9 @@ class TransitionTask(Task):
             out['error'] = f'{FUNC}: outside the modelled subset: {u}'
             from props.C04_scenarios import fallback_results
             out['results'].extend(fallback_results())
+            if self.prop != 'C04':
+                from contracts.decoder_scenarios import fallback_results as fb2
+                out['results'].extend(fb2(self.prop))
             return out
         out['functions'][0]['paths'] = len(results)
         out['functions'][0]['symex_seconds'] = round(time.time() - t0, 2)
